@@ -137,6 +137,45 @@ pub fn run(tier: &str) -> Result<Report, String> {
         rep.violations.extend(bad.into_iter().take(5));
     }
     rep.set("steady_state_free_networks_of_the_2_variable_family", json!(n_free2));
+    // graphs perturbed by the library after construction (SymbolicAsyncGraph::restrict_variable_in_graph fixes one variable in
+    // every update function; the attached network object stays as it was): when NO (state, colour) pair of the perturbed graph
+    // is without a successor (decided on the graph itself: unit minus the union of var_can_post) all formulae must agree,
+    // otherwise the loop-insensitive fragment
+    {
+        use biodivine_lib_param_bn::biodivine_std::traits::Set;
+        let mut alpha = Alphabet::plain(2, 2);
+        alpha.bi = crate::formulas::ALL_BI.to_vec();
+        let all_fs = Gen::new(alpha).closed_up_to(3);
+        let mut n_pert = 0u64;
+        let mut n_pert_free = 0u64;
+        for b in nets.iter().filter(|b| b.n >= 2) {
+            for (vi, v) in b.graph.variables().enumerate() {
+                for val in [false, true] {
+                    let g = b.graph.restrict_variable_in_graph(v, val);
+                    let unit = g.mk_unit_colored_vertices();
+                    let mut stuck = unit.clone();
+                    for w in g.variables() {
+                        stuck = stuck.minus(&g.var_can_post(w, &unit));
+                    }
+                    let free = stuck.is_empty();
+                    let pb = Arc::new(b.with_graph(&format!("{}|{}:={}", b.name, b.spec.vars[vi], val), g));
+                    let ctx = NetCtx::new(pb.clone(), Labels::default(), "none");
+                    let fs: Vec<&F> = all_fs.iter().filter(|f| free || loop_insensitive(f)).collect();
+                    let bad: Vec<Violation> = fs
+                        .par_iter()
+                        .filter_map(|f| check(&ctx, f).map(|w| Violation { case: json!({"kind": "none"}), what: format!("formula {} on {} [{}] with {} fixed to {} by restrict_variable_in_graph ({}): {w}", f.show(&ctx.user), b.name, b.aeon.replace('\n', "; "), b.spec.vars[vi], val, if free { "no pair without a successor" } else { "fragment" }), size: f.size() }))
+                        .collect();
+                    n_pert += 1;
+                    if free {
+                        n_pert_free += 1;
+                    }
+                    rep.evaluations += fs.len() as u64 * 2;
+                    rep.violations.extend(bad.into_iter().take(5));
+                }
+            }
+        }
+        rep.set("perturbed_graphs", json!({"graphs": n_pert, "without_any_stuck_pair_all_formulae": n_pert_free, "max_nodes": 3}));
+    }
     // histories: two networks with the SAME symbolic encoding (variables a, b; no parameters; unit = true)
     // but different update functions, checked one after the other on one fresh OS thread; the second
     // one is steady-state free, so both variants must agree on it for ALL formulae, whatever was
@@ -211,7 +250,7 @@ pub fn run(tier: &str) -> Result<Report, String> {
     rep.set("steady_state_free_networks", json!(steady_free));
     rep.sample(json!({"network": "asy2", "formula": "(!{x}: (AG (EF {x})))", "fragment": true}));
     rep.sample(json!({"network": "cyc3", "formula": "(!{x}: (AX (AF {x})))", "fragment": false, "why": "cyc3 has no steady state in any colour (decided by the independent transition systems)"}));
-    rep.rule = format!("core networks and the steady-state-free networks of the de-duplicated all-2-variable family (all formulae with <= 3, thorough 4, nodes): on networks where the independent transition systems have no steady state in any colour ({steady_free:?}) ALL closed formulae with <= {m_free} nodes over all operators (+ templates); on the others all closed formulae with <= {m_frag} nodes over the loop-insensitive fragment {{~ & | ^ => <=> EF AG EU AW ! @ 3 V}} (+ fragment templates and the pattern-with-condition family: `!{{x}}: AG EF ({{x}} & PHI)` and its variants for 13 conditions PHI, some quantifying over transient states): model_check_formula_unsafe_ex must return the same raw set as model_check_formula_dirty (BDD equality). plus two-network histories: ordered pairs (first network with steady states, second steady-state free, identical symbolic encoding) evaluated one after the other on one fresh OS thread, all formulae with <= 2 nodes on the second: variants agree and match the oracle. distinct_nontrivial = number of (formula, network) pairs");
+    rep.rule = format!("core networks and the steady-state-free networks of the de-duplicated all-2-variable family (all formulae with <= 3, thorough 4, nodes): on networks where the independent transition systems have no steady state in any colour ({steady_free:?}) ALL closed formulae with <= {m_free} nodes over all operators (+ templates); on the others all closed formulae with <= {m_frag} nodes over the loop-insensitive fragment {{~ & | ^ => <=> EF AG EU AW ! @ 3 V}} (+ fragment templates and the pattern-with-condition family: `!{{x}}: AG EF ({{x}} & PHI)` and its variants for 13 conditions PHI, some quantifying over transient states): model_check_formula_unsafe_ex must return the same raw set as model_check_formula_dirty (BDD equality). plus graphs perturbed by restrict_variable_in_graph (every variable x both values; all formulae with <= 3 nodes where the perturbed graph has no pair without a successor, the fragment otherwise); plus two-network histories: ordered pairs (first network with steady states, second steady-state free, identical symbolic encoding) evaluated one after the other on one fresh OS thread, all formulae with <= 2 nodes on the second: variants agree and match the oracle. distinct_nontrivial = number of (formula, network) pairs");
     rep.assumptions.push("the standard evaluation itself is validated against the oracle by C01/C13".into());
     Ok(rep)
 }
